@@ -220,15 +220,15 @@ def mdetCompare (U : Universe) (ms : Resolvo.MDet.S) (o : Resolvo.MDet.Outcome) 
   let ires := if r.result == "cancelled" then s!"cancelled {r.resultArg}" else r.result
   let mresCmp := if mres.startsWith "panic" then "panic" else mres
   if o matches .stop .outOfFuel then ["oracle-fail C04 mdet-fuel: the model ran out of fuel on this case"]
-  else if ires != mresCmp then [s!"oracle-fail C01,C02,C04,C05,C06,C07,C08,C09,C12,C14,C15 mdet-result: implementation `{ires}` model `{mres}`"]
-  else if msol != r.solution then [s!"oracle-fail C01,C05,C06,C07,C08,C14 mdet-solution: implementation [{natList r.solution}] model [{natList msol}]"]
+  else if ires != mresCmp then [s!"oracle-fail C01,C02,C04,C05,C06,C07,C08,C09,C10,C11,C12,C13,C14,C15 mdet-result: implementation `{ires}` model `{mres}`"]
+  else if msol != r.solution then [s!"oracle-fail C01,C05,C06,C07,C08,C10,C13,C14 mdet-solution: implementation [{natList r.solution}] model [{natList msol}]"]
   else if newLog != r.calls then
     let k := ((newLog.zip r.calls).takeWhile (fun p => p.1 == p.2)).length
-    [s!"oracle-fail C09,C12,C13 mdet-calls: provider call log differs at position {k}: implementation `{r.calls.getD k "<end>"}` model `{newLog.getD k "<end>"}`"]
+    [s!"oracle-fail C09,C10,C11,C12,C13 mdet-calls: provider call log differs at position {k}: implementation `{r.calls.getD k "<end>"}` model `{newLog.getD k "<end>"}`"]
   else if mres.startsWith "panic" then []
   else if newTrace != r.trace then
     let k := ((newTrace.zip r.trace).takeWhile (fun p => p.1 == p.2)).length
-    [s!"oracle-fail C01,C02,C03,C05,C06,C14,C15 mdet-trace: solver history differs at event {k}: implementation `{r.trace.getD k "<end>"}` model `{newTrace.getD k "<end>"}`"]
+    [s!"oracle-fail C01,C02,C03,C05,C06,C10,C13,C14,C15 mdet-trace: solver history differs at event {k}: implementation `{r.trace.getD k "<end>"}` model `{newTrace.getD k "<end>"}`"]
   else if mconf != r.conflictClauses then [s!"oracle-fail C03,C06 mdet-conflict-clauses: implementation [{natList r.conflictClauses}] model [{natList mconf}]"]
   else
     -- Conflict::graph
@@ -252,12 +252,16 @@ def runSolve (lines : List String) : List String :=
   else
     let impls := parseImpl implLines
     let sync := cfgGet cfg "mode" == "sync" && cfgGet cfg "sortpeeks" != "1"
+    -- asynchronous provider with synchronous filter/sort: the exact model follows the executor's completion order
+    let asyncExact := cfgGet cfg "mode" == "async" && cfgGet cfg "gatefs" != "1" && cfgGet cfg "sortpeeks" != "1"
     let rec go (ps : List Problem) (is : List ImplSolve) (k : Nat) (ms : Resolvo.MDet.S) (prior : List String) (acc : List String) : List String :=
       match ps, is with
       | p :: ps', i :: is' =>
-        let md := if sync then
+        let md := if sync || asyncExact then
             let fuel := 400 + 40 * (U.solvs.length + U.vsets.length) * (U.solvs.length + 4)
-            let (o, ms') := Resolvo.MDet.solveRun U p fuel { ms with trace := [] }
+            let sched := (i.events.filter (·.startsWith "complete ")).map (fun e => (e.drop 9).toString)
+            let (o, ms') := Resolvo.MDet.solveRun U p (if asyncExact then 4 * fuel else fuel)
+              { ms with trace := [], asyncMode := asyncExact, sched := sched, aevents := [] }
             let newLog := (ms'.log.take (ms'.log.length - ms.log.length)).reverse
             -- the checked model: its own history and answer go through the verified checkers
             let chk := match Resolvo.MDet.checkOutcome U p o ms'.trace.reverse with
@@ -265,7 +269,12 @@ def runSolve (lines : List String) : List String :=
               | .ok _ => ["info checked ok"]
               | .unsat _ => ["info checked unsat"]
               | .stop _ => ["info checked stop"]
-            (mdetCompare U ms' o newLog (ms'.trace.reverse.map Resolvo.MDet.evLine) i ++ chk, ms')
+            let evs := if asyncExact && ms'.aevents.reverse != i.events && !(o matches .stop _) then
+                let me := ms'.aevents.reverse
+                let k := ((me.zip i.events).takeWhile (fun p => p.1 == p.2)).length
+                [s!"oracle-fail C10,C11 mdet-events: executor events differ at position {k}: implementation `{i.events.getD k "<end>"}` model `{me.getD k "<end>"}`"]
+              else []
+            (mdetCompare U ms' o newLog (ms'.trace.reverse.map Resolvo.MDet.evLine) i ++ evs ++ chk, ms')
           else ([], ms)
         -- C15 family: the spec-level expectation (two candidates of one package required => Unsolvable; one => solvable)
         let expect := (caseLines.find? (fun l => l.startsWith "expect ")).map (fun l => (l.drop 7).toString)
